@@ -56,6 +56,7 @@ type KVJob struct {
 	Tier int      `json:"tier"`
 	Only []string `json:"only,omitempty"` // restrict the operations tried (replay)
 	Full bool     `json:"full,omitempty"` // include full observations in the result (replay)
+	ExtraBackfills bool `json:"extraBackfills,omitempty"`
 }
 
 type KVTransition struct {
@@ -184,6 +185,7 @@ func ExpandKV(job KVJob) KVJobResult {
 			return w.H[0]
 		}), func() {
 			w = NewKVWorld(cfg)
+			w.ExtraBackfills = job.ExtraBackfills
 			// issued: the highest CAS the clock has handed out so far. WithMeta writes store client-chosen
 			// CAS values and are exempt from C04, so they do not count.
 			issued := quickEnv(w, "k").MaxCas
